@@ -18,7 +18,7 @@ def norm(name):
     return name.upper()[:8].ljust(8)
 
 
-def make(sid, nam, cli_name, switches, pad, end_operand, with_org=True):
+def make(sid, nam, cli_name, switches, pad, end_operand, with_org=True, word=False):
     def body(ctx):
         install_m7()
         lines = []
@@ -32,6 +32,13 @@ def make(sid, nam, cli_name, switches, pad, end_operand, with_org=True):
         tv, v = ctx.lit("H2", "v")
         lines.append("START LDA #%s" % tv)
         lines.append("ENTRY STA $0400")
+        wlen = 0
+        if word:
+            # an arbitrary 16-bit word inside the image (incl. the tape sync pair $55 $3C and the disk markers $FF00)
+            tw, _w = ctx.lit("H4", "w")
+            lines.append(" LDX #%s" % tw)
+            lines.append(" FDB %s" % tw)
+            wlen = 5
         if pad:
             lines.append(" RMB %d" % pad)
         lines.append("LAST RTS")
@@ -42,7 +49,7 @@ def make(sid, nam, cli_name, switches, pad, end_operand, with_org=True):
         if not ref.ok:
             return True, dict(info, note="program rejected: " + ref.describe())
         img = image(ref.program)
-        entry = {"START": o, "ENTRY": o + 2, "LAST": o + 5 + pad, None: o, "": o}[end_operand]
+        entry = {"START": o, "ENTRY": o + 2, "LAST": o + 5 + wlen + pad, None: o, "": o}[end_operand]
         want_name = nam if nam is not None else cli_name
         kw = {}
         for s in switches:
@@ -70,6 +77,8 @@ def make(sid, nam, cli_name, switches, pad, end_operand, with_org=True):
                     fault = "disk file created without a name"
             else:
                 fault = check_dsk(files.get("out.dsk"), img, o, entry, want_name)
+        if fault is None and want_name is not None:
+            fault = tool_lists(files, switches, img, want_name)
         info["fault"] = fault
         if fault is None:
             return True, info
@@ -82,6 +91,27 @@ def make(sid, nam, cli_name, switches, pad, end_operand, with_org=True):
         ob.native_only = True       # a 52 KB image through the disk writer: concrete replay (too slow under tracing)
         ob.r4 = False
     return ob
+
+
+def tool_lists(files, switches, img, name):
+    """the tool's own reader (what file_util --list / --append use) sees the same program in every container written"""
+    from cocoasm.virtualfiles.virtual_file import VirtualFile
+    from cocoasm.virtualfiles.source_file import SourceFile, SourceFileType
+    for sw, path in (("to_cas", "out.cas"), ("to_dsk", "out.dsk")):
+        if sw not in switches or path not in files:
+            continue
+        with MemFS({path: list(files[path])}):
+            try:
+                vf = VirtualFile(SourceFile(path, file_type=SourceFileType.BINARY))
+                vf.open_virtual_file()
+                got = vf.list_files()
+            except Exception as e:  # noqa: BLE001
+                return "the tool cannot list the %s it wrote: %s: %s" % (path, type(e).__name__, e)
+        if len(got) != 1:
+            return "the tool lists %d files in the %s it wrote" % (len(got), path)
+        if len(got[0].data) != len(img) or list(got[0].data) != list(img):
+            return "the tool reads different program bytes back from the %s it wrote" % path
+    return None
 
 
 def check_cas(buf, img, origin, entry, name):
@@ -146,6 +176,8 @@ def obligations(tier, seed):
     obs.append(make("pad52000", "BIGONE", None, ["to_dsk", "to_bin"], 52000, None))
     for endop in ["", "START", "ENTRY", "LAST"]:
         obs.append(make("end:%s" % (endop or "none"), "ENDER", None, ["to_cas", "to_dsk"], 3, endop))
+    obs.append(make("word", "WORDY", None, ["to_bin", "to_cas", "to_dsk"], 0, None, word=True))
+    obs.append(make("word-pad", "WORDY", None, ["to_cas", "to_dsk"], 251, "ENTRY", word=True))
     obs.append(make("noorg", "NOORG", None, ["to_bin", "to_cas", "to_dsk"], 0, None, with_org=False))
     obs.append(make("noorg-end", "NOORG", None, ["to_cas"], 0, "ENTRY", with_org=False))
     return obs
